@@ -8,7 +8,7 @@
 (* calls it made (calls), and the projection of the implementation state    *)
 (* AFTER the request: status (Status RPC), cfg (fm.config), cur (fm.curFs), *)
 (* fsMap, store (bolt bucket), insts, live (mount tables of the recording   *)
-(* filesystems), epoch, extra (records under unknown keys).                 *)
+(* filesystems), liveLab (labels of the live mount), epoch, extra (records under unknown keys).                 *)
 EXTENDS FuseMgr, Json, TLCExt
 
 VARIABLE l
@@ -22,6 +22,7 @@ IsEvent(e) == l <= Len(TraceLog) /\ Ev.act = e /\ l' = l + 1
 ObsOK ==
     /\ status' = Ev.status /\ cfg' = Ev.cfg /\ cur' = Ev.cur
     /\ \A m \in Mps : fsMap'[m] = Ev.fsMap[m] /\ store'[m] = Ev.store[m] /\ live'[m] = Ev.live[m]
+                    /\ liveLab'[m] = Ev.liveLab[m]
     /\ insts' = Ev.insts
     /\ epoch' = Ev.epoch
     /\ Ev.extra = 0
@@ -33,7 +34,7 @@ TraceReset ==
     /\ IsEvent("Reset")
     /\ status' = "wait" /\ cfg' = 0 /\ cur' = 0
     /\ fsMap' = [m \in Mps |-> 0] /\ store' = [m \in Mps |-> NoRec]
-    /\ insts' = <<>> /\ live' = [m \in Mps |-> <<>>]
+    /\ insts' = <<>> /\ live' = [m \in Mps |-> <<>>] /\ liveLab' = [m \in Mps |-> "none"]
     /\ epoch' = 1 /\ ninit' = 0 /\ hist' = NoHist
     /\ last' = [act |-> "Start", res |-> "ok", calls |-> <<>>]
 
